@@ -430,6 +430,7 @@ int main(int argc, char** argv)
     int violations = 0, nondet = 0;
     std::map<std::string, int> class_count;
     int64_t uncounted_extra = 0;
+    int64_t known_reported = 0;      // occurrences of recorded known findings: reported, but they do not settle the verdict
     std::ofstream hf;
     if (!hashes_path.empty()) hf.open(hashes_path);
     auto t0 = std::chrono::steady_clock::now();
@@ -460,7 +461,9 @@ int main(int argc, char** argv)
             std::string key = v.property + "/" + v.cls;
             if (std::find(seen.begin(), seen.end(), key) != seen.end()) continue;
             seen.push_back(key);
-            if (++class_count[key] > 3) { ++uncounted_extra; st.add("violations_not_minimised." + v.cls); continue; }
+            const bool known = v.cls.rfind("known_", 0) == 0;
+            if (++class_count[key] > 3) { if (!known) ++uncounted_extra; st.add((known ? "known_finding_occurrences." : "violations_not_minimised.") + v.cls); continue; }
+            if (known) ++known_reported;
             js::Value j = js::Value::obj();
             j.set("property", v.property); j.set("class", v.cls); j.set("detail", v.detail);
             j.set("seed", js::Value(int64_t(seed))); j.set("index", js::Value(int64_t(i)));
@@ -502,7 +505,7 @@ int main(int argc, char** argv)
         }
         watchdog_disarm();
         if (i < 0) i = from - 1;
-        if (violations + uncounted_extra >= 60) break;     // the verdict is settled; do not grind through a broken tree
+        if (violations - known_reported + uncounted_extra >= 60) break;     // the verdict is settled; do not grind through a broken tree
     }
     g_cur_index = -1;
     double wall = std::chrono::duration<double>(std::chrono::steady_clock::now() - t0).count();
